@@ -132,6 +132,12 @@ package utils
 //@   ensures shape: is(result, *exactReader) && fresh(as(result, *exactReader)) && as(result, *exactReader) != nil && as(result, *exactReader).r == r && as(result, *exactReader).n == n
 //@   ensures_assumed stream_definition: lsrc(result) == r && lsrc_t(result) == typeof(r) && llim(result) == n && ebase(result) == rpos(r) && rpos(result) == 0 && rend(result) == ite(n <= 0, 0, min(n, ravail(r))) && rbad(result) == (n > 0 && ravail(r) < n)
 //@   ensures_assumed stream_data: forall(i, 0, rend(result), rdata(result)[i] == rdata(r)[rpos(r) + i])
+// consumers may reach other methods through interface assertions (io.WriterTo, io.ByteReader ...):
+// the reader has exactly the one verified method
+//@ methods exactReader: Read
+//@ field exactReader.* covered
+//@ field exactReader.r immutable ExactReader
+//@ field exactReader.n owned_by (*exactReader).Read, ExactReader
 //@ func (*exactReader).Read
 //@   requires exInv(e) && exData(e)
 //@   may_panic true
